@@ -539,3 +539,137 @@ def rule_fmt_local_type(ctx):
                 ctx.violated("FMTTYPE", key, f.where(c[5]), "%s copies the value into a local of type `%s`, not `%s`: values outside that type's range are printed wrongly (e.g. sign-extended)" % (f.name, have, want))
     ctx.floor("FMTTYPE", 6, n, "(hdp value formatters)")
     return n
+
+
+def _fl_width(t):
+    t = (t or "").replace("const ", "").strip()
+    if t in ("float64", "double"):
+        return 64
+    if t in ("float32", "float"):
+        return 32
+    return None
+
+
+def rule_float_difference_kept_wide(ctx):
+    """FLTNARROW (C19): hdiff decides "different" from |a - b| > limit.  For float64 elements the magnitude must stay a float64 all
+    the way into that comparison: cast to float32 (or stored in a float32 variable) a difference below the float32 range becomes
+    0 and two different values are reported equal.  Instances: every |a-b| of floating-point elements in hdiff's kernels."""
+    prog = ctx.prog
+    n = 0
+    occ = {}
+    for f in prog.funcs:
+        if not f.rel.startswith("mfhdf/hdiff/"):
+            continue
+        for bid, i, s, nn in f.nodes(True):
+            if nn[0] != "asg" or nn[1] != "=":
+                continue
+            r = unseen(nn[3])
+            casts = []
+            while kind(r) == "cast":
+                casts.append(r[1])
+                r = unseen(r[2])
+            if kind(r) != "call" or r[1] not in ("fabs", "fabsf", "fabsl") or not r[3]:
+                continue
+            d = unseen(r[3][0])
+            while kind(d) == "cast":
+                d = unseen(d[2])
+            if kind(d) != "bin" or d[1] != "-":
+                continue
+            ws = []
+            for side in (d[2], d[3]):
+                e = unseen(side)
+                while kind(e) == "cast":
+                    e = unseen(e[2])
+                t = e[2] if kind(e) == "deref" else (e[3] if kind(e) in ("idx", "var") else None)
+                ws.append(_fl_width(t))
+            if None in ws:
+                continue
+            w = max(ws)
+            n += 1
+            tgt = path(nn[2]) or render(nn[2])
+            key = "FLTNARROW:%s:%s" % (f.name, tgt)
+            occ[key] = occ.get(key, 0) + 1
+            if occ[key] > 1:
+                key += "#%d" % occ[key]
+            probs = []
+            for c in casts:
+                cw = _fl_width(c)
+                if cw is not None and cw < w:
+                    probs.append("the magnitude is cast to (%s)" % c)
+            tw = _fl_width(nn[5])
+            if tw is not None and tw < w:
+                probs.append("it is stored in `%s` of type %s" % (tgt, nn[5]))
+            if r[1] == "fabsf" and w == 64:
+                probs.append("fabsf() works on float32")
+            if probs:
+                ctx.violated("FLTNARROW", key, f.where(nn[4]), "|a-b| of two float%d elements is narrowed: %s — a difference below the float32 range becomes 0 and is not reported" % (w, "; ".join(probs)))
+            else:
+                ctx.holds("FLTNARROW", key, f.where(nn[4]), "|a-b| of float%d elements is kept in float%d" % (w, w), nontrivial=True)
+    ctx.floor("FLTNARROW", 2, n, "(floating-point element differences in hdiff kernels)")
+    return n
+
+
+def rule_scale_siblings(ctx):
+    """SCALESIB (C19): hdfimport reads the axis scales of its input once per output number type: the same block is repeated for every
+    type, each reading `dims[k]` numbers into the scale of axis k (plane/depth, vertical, horizontal).  Which dimension bounds which
+    scale is the same in every copy; a copy that reads the horizontal scale with the vertical count consumes too few numbers and
+    the data values that follow are shifted.  Every (rank arm, scale field) pair must use one dimension index in all copies."""
+    from .codec import ast_walk
+    from .facts import base_var, mem_field
+    prog = ctx.prog
+    groups = {}
+    for f in prog.funcs:
+        if not f.rel.startswith("mfhdf/hdfimport/"):
+            continue
+        ast = f.raw.get("ast")
+        if not ast:
+            continue
+
+        def vis(nd, st):
+            if nd[0] != "for" or nd[2] is None:
+                return True
+            c = strip(nd[2])
+            if not (kind(c) == "bin" and c[1] == "<" and kind(strip(c[3])) == "idx" and is_int(strip(c[3])[2])):
+                return True
+            dimarr = base_var(strip(c[3]))
+            k = int_val(strip(c[3])[2])
+            fld = None
+            from .rules_loops import seq_of
+            for e, _n in seq_of(nd[4]):
+                for x in walk(e, True):
+                    if x[0] == "addr":
+                        t = strip(x[1])
+                        if kind(t) == "idx" and mem_field(t[1]):
+                            fld = mem_field(t[1])[1]
+                    elif x[0] == "asg" and kind(strip(x[2])) == "idx" and mem_field(strip(x[2])[1]):
+                        fld = fld or mem_field(strip(x[2])[1])[1]
+            if fld is None:
+                return True
+            arm = []
+            chain = st + [nd]
+            for i, s_ in enumerate(st):
+                if s_[0] == "if" and "rank" in render(s_[1]):
+                    arm.append((render(s_[1]), chain[i + 1] is s_[2]))
+            groups.setdefault((f.name, dimarr, tuple(arm), fld), []).append((k, nd[-3] if isinstance(nd[-3], int) else f.line, f))
+            return True
+
+        ast_walk(ast, vis)
+    n = 0
+    for (fn, dimarr, arm, fld), sites in sorted(groups.items()):
+        if len(sites) < 3:
+            continue
+        n += 1
+        ks = {}
+        for k, line, f in sites:
+            ks.setdefault(k, []).append((line, f))
+        armtxt = " and ".join("%s is %s" % (c, "true" if p else "false") for c, p in arm) or "any rank"
+        key = "SCALESIB:%s:%s:%s" % (fn, fld, "/".join(("T" if p else "F") for _c, p in arm) or "-")
+        if len(ks) == 1:
+            ctx.holds("SCALESIB", key, sites[0][2].where(sites[0][1]), "all %d copies read `%s` with %s[%d] (%s)" % (len(sites), fld, dimarr, list(ks)[0], armtxt), nontrivial=True)
+        else:
+            minority = min(ks.items(), key=lambda kv: len(kv[1]))
+            major = max(ks.items(), key=lambda kv: len(kv[1]))
+            ctx.violated("SCALESIB", key, minority[1][0][1].where(minority[1][0][0]), "%d copies read `%s` with %s[%d] but this one uses %s[%d] (%s): it consumes a different number of scale values and shifts the data that follow" %
+                         (len(major[1]), fld, dimarr, major[0], dimarr, minority[0], armtxt))
+    ctx.floor("SCALESIB", 5, n, "(scale field x rank arm groups read once per number type)")
+    return n
